@@ -20,18 +20,22 @@ use crate::common::{C2Vector, C3Vector, FixedString, M2ArrayString};
 const FLAG_COMBINERS: u32 = 0x8;
 const FLAG_BLEND_OVERRIDE: u32 = 0x0800_0000;
 
-fn model_of(version: M2Version, flags: u32) -> M2Model {
+fn model_of(version: M2Version, flags: u32) -> M2Model { model_of_x(version, flags, true) }
+fn model_of_x(version: M2Version, flags: u32, symbolic_floats: bool) -> M2Model {
     let mut m = M2Model::default();
     m.header = M2Header::new(version);
     m.header.flags = M2ModelFlags::from_bits_retain(flags);
-    m.header.bounding_box_min = [kani::any(), kani::any(), kani::any()];
-    m.header.bounding_sphere_radius = kani::any();
-    m.header.collision_sphere_radius = kani::any();
+    if symbolic_floats {
+        m.header.bounding_box_min = [kani::any(), kani::any(), kani::any()];
+        m.header.bounding_sphere_radius = kani::any();
+        m.header.collision_sphere_radius = kani::any();
+    }
     m
 }
 
-fn empty_model(version: M2Version, flags: u32) {
-    let m = model_of(version, flags);
+fn empty_model(version: M2Version, flags: u32) { empty_model_x(version, flags, true) }
+fn empty_model_x(version: M2Version, flags: u32, symbolic_floats: bool) {
+    let m = model_of_x(version, flags, symbolic_floats);
     let mut out = Seg::new();
     let w = m.write(&mut out);
     assert!(w.is_ok());
@@ -81,7 +85,7 @@ empty_model_h!(c13e_model_empty_cataclysm, M2Version::Cataclysm);
 #[kani::stub(std::fmt::format, vio::fmt_stub)]
 #[kani::stub(std::string::String::from_utf8_lossy, segio::lossy_stub)]
 #[kani::unwind(6)]
-fn c13e_model_layout_flags_witness() { empty_model(M2Version::WotLK, FLAG_COMBINERS) }
+fn c13e_model_layout_flags_witness() { empty_model_x(M2Version::WotLK, FLAG_COMBINERS, false) }
 
 /// witness (known finding model-legion-transforms): for Legion+ version numbers M2Model::write drops texture_transforms, which
 /// the header parser expects for those versions
@@ -89,7 +93,7 @@ fn c13e_model_layout_flags_witness() { empty_model(M2Version::WotLK, FLAG_COMBIN
 #[kani::stub(std::fmt::format, vio::fmt_stub)]
 #[kani::stub(std::string::String::from_utf8_lossy, segio::lossy_stub)]
 #[kani::unwind(6)]
-fn c13e_model_legion_witness() { empty_model(M2Version::Legion, 0) }
+fn c13e_model_legion_witness() { empty_model_x(M2Version::Legion, 0, false) }
 
 // ------------------------------------------------------------------ small model: offsets in the header vs. where the data is
 fn rd16(b: &Seg, o: usize) -> u16 { b.get16(o) }
